@@ -376,13 +376,23 @@ func runOrders(o *Opts) *Summary {
 			// candidate otherwise); the verdict is TLC's, on the recorded instances.
 			n = 4 + t%2
 			for cand := 0; ; cand++ {
+				if t%3 == 1 {
+					n = 4
+				}
 				w2 = NewWorld(o.Seed*100000+int64(t)*1000+int64(cand), n)
 				w2.OpenTrace(os.DevNull)
 				w2.tsBase = time.Now().Unix()
 				// (every third trace: no screening, but creator 1 lags - after the first quarter
 				// of the steps nobody builds on its events any more, so that they can be
 				// inserted long after the rounds they belong to were decided)
-				randGossipDAG(w2, n, o.Steps+w2.rng.Intn(o.Steps/3+1), t%3 == 1)
+				if t%3 == 1 {
+					n = 4
+				}
+				nsteps := o.Steps + w2.rng.Intn(o.Steps/3+1)
+				if t%3 == 1 {
+					nsteps = 2 * nsteps
+				}
+				randGossipDAG(w2, n, nsteps, t%3 == 1)
 				if t%3 == 1 {
 					break
 				}
